@@ -16,7 +16,7 @@ for mp in sorted(glob.glob(os.path.join(HERE, "seeded", "*", "meta.json"))):
     r = mx.get(m["id"], {})
     by = []
     for prop in sorted(r):
-        if isinstance(r[prop], dict) and r[prop].get("rc") == 1:
+        if isinstance(r[prop], dict) and r[prop].get("rc") in (1, 2) and r[prop].get("classes"):
             cls = [c.split("|")[0].split(":", 1)[1] for c in r[prop]["classes"][:2]]
             by.append("%s (%s)" % (prop, ", ".join("`%s`" % c for c in cls)))
     if by:
